@@ -305,6 +305,8 @@ type Backend struct {
 	EventGate chan struct{} // when non-nil SendEvent blocks until it can receive from the gate (or it is closed)
 	SendErr   error
 	InEvent   int32
+	// EventDelay > 0: SendEvent takes that long and returns the context's error (without recording) when the context ends first
+	EventDelay time.Duration
 }
 
 func NewBackend(name string) *Backend { return &Backend{BName: name} }
@@ -321,6 +323,15 @@ func (b *Backend) SendMetricsAsync(ctx context.Context, mm *gostatsd.MetricMap, 
 
 func (b *Backend) SendEvent(ctx context.Context, e *gostatsd.Event) error {
 	atomic.AddInt32(&b.InEvent, 1)
+	if b.EventDelay > 0 {
+		// like a backend that talks to a network: the send takes a moment and gives up when its context ends
+		select {
+		case <-time.After(b.EventDelay):
+		case <-ctx.Done():
+			atomic.AddInt32(&b.InEvent, -1)
+			return ctx.Err()
+		}
+	}
 	b.mu.Lock()
 	gate := b.EventGate
 	b.mu.Unlock()
